@@ -749,9 +749,19 @@ def _worker_run(task):
                                   "tb": traceback.format_exc()[-1500:], "obligations": [], "children": [], "queries": 0, "seconds": 0, "functions": []})
 
 
-def explore(harness_mod, jobs, opts, workers=None, max_paths=2000, budget_s=None, log=None):
+def explore(harness_mod, jobs, opts, workers=None, max_paths=2000, budget_s=None, log=None, _retry=True):
     """jobs: list of (fn_name, params).  Explores every path of every job (bounded by max_paths per job
     and a global wall budget).  Returns list of (fn_name, params, [path results], complete?)."""
+    res = _explore_once(harness_mod, jobs, opts, workers, max_paths, budget_s, log)
+    done = sum(1 for _, _, paths, _ in res for p_ in paths if not str(p_.get("why", "")).startswith("path still running"))
+    if _retry and done == 0 and any(paths for _, _, paths, _ in res):
+        # not one path came back before the watchdog fired: the worker pool never got going (observed once, under heavy load);
+        # one fresh attempt with a new pool - a second failure is reported as it is
+        return explore(harness_mod, jobs, opts, workers, max_paths, budget_s, log, _retry=False)
+    return res
+
+
+def _explore_once(harness_mod, jobs, opts, workers=None, max_paths=2000, budget_s=None, log=None):
     workers = workers or min(16, os.cpu_count() or 4)
     t0 = time.time()
     results = {i: [] for i in range(len(jobs))}
